@@ -506,6 +506,37 @@ def main():
                 print("VIOLATION property=%s replay=%s" % (prop, rp))
                 sys.exit(1)
             sys.exit(2)
+        # Changed-tree tripwire.  Every obligation is discharged; if the library sources differ from the tree on which the
+        # contracts were developed (vc/baseline_tree.json), the property's boundary-input enumeration is ALSO run on the real
+        # crate (bounded, never counted as proved): contracts can be weaker than the property in places (trusted functions,
+        # numeric fidelity through f64 casts, cumulative allocation, code outside every extracted function), and a concrete
+        # failing input replayed on the real code is a violation whatever the proofs say.  On the unchanged tree this never runs.
+        tripwire = None
+        try:
+            import update_baseline, replay
+            base = json.load(open(os.path.join(ROOT, "vc", "baseline_tree.json")))["files"]
+            cur = update_baseline.tree_hashes(a.repo)
+            changed = sorted(k for k in set(base) | set(cur) if base.get(k) != cur.get(k))
+            if changed and replay.FINDERS.get(prop) and not os.environ.get("VERIF_NO_TRIPWIRE"):
+                w = replay.find_witness(prop, [], a.repo, scratch)
+                tripwire = {"changed_files": changed[:20], "witness_found": bool(w and w.get("found")), "tried": (w or {}).get("tried")}
+                if w and w.get("found"):
+                    os.makedirs(os.path.join(ROOT, "replay", "out"), exist_ok=True)
+                    rp = os.path.join(ROOT, "replay", "out", "%s-%d.json" % (prop, int(time.time())))
+                    json.dump({"property": prop, "failed_obligations": [], "deductive_verdict": "all obligations discharged",
+                               "note": "the contracts are weaker than the property here: a bounded differential run on the changed tree found a concrete failing input",
+                               "changed_files": changed[:50], "witness": w}, open(rp, "w"), indent=1)
+                    ev["violations"] = 1; ev["coverage"]["replay_file"] = rp; ev["coverage"]["tripwire"] = tripwire
+                    json.dump(ev, open(os.path.join(evdir, prop + ".json"), "w"), indent=1)
+                    print("VIOLATION property=%s replay=%s" % (prop, rp))
+                    sys.exit(1)
+        except SystemExit:
+            raise
+        except Exception as e:
+            tripwire = {"error": repr(e)}
+        if tripwire is not None:
+            ev["coverage"]["tripwire"] = tripwire
+            json.dump(ev, open(os.path.join(evdir, prop + ".json"), "w"), indent=1)
         print("OK property=%s obligations=%d discharged=%d units=%s wall=%.1fs" % (prop, obligations, discharged, ",".join(r["unit"] for r in results), wall))
         sys.exit(0)
     finally:
